@@ -545,3 +545,63 @@ def c15(c):
     c.partial = ["Radau's Newton iteration with a mass matrix (E1/E2 assembly, M-products) is not modelled: 'M y' = f agrees with y' = M^-1 f', the DAE residual and analytic-vs-FD agreement are decided per input by mass-check on the real solvers (tridiagonal linear systems n = 1..8 with tridiagonal mass, one index-1 DAE family)",
                  "bit-identity across storages is a theorem about reads (Mat.get) plus the source-text fact that the solvers only index; the runs themselves are compared bitwise by mass-check",
                  "index-2/3 scaling and the nind partition are not covered"]
+
+
+# ---------------------------------------------------------------------------------------------- C13 (symmetries)
+C13_THEOREMS = ["c13_tolerance_scalar_vector", "c13_radau_tolAdjust", "c13_reflect_rk4", "c13_reflect_rk23", "c13_reflect_dopri5",
+                "c13_reflect_dop853", "c13_reflect_guards", "c13_reflect_norm", "c13_scale_dopri5", "c13_scale_rk23", "c13_copies_norm",
+                "rkArg_reflect", "rkNew_reflect", "rkArg_scale", "rkNew_scale", "sum_copies", "foldl_add_eq_sum"]
+
+
+def c13(c):
+    common_proof(c, "IvpModel.Props.C13", C13_THEOREMS)
+    if c.build_harness() and c.build_driver():
+        solve_stream(c)
+        generic_monitor(c, "sym_check", ["sym-check", c.seed, 200 if c.tier == "quick" else 4000], "sy")
+    only_keys(c, ("c13",))
+    c.cov["samples"] += [
+        {"theorem": "c13_reflect_dopri5", "statement": "stages (openF (−Kc)) y (−h) (−k1) (−x): calls = mirrored calls of stages (openF Kc) y h k1 x, and the same y1   (every n, any ordered field)"},
+        {"theorem": "c13_copies_norm", "statement": "(Σ_{i<m·n} (e_{i mod n}/sk_{i mod n})²)/(m·n) = (Σ_{i<n} (e_i/sk_i)²)/n"},
+    ]
+    c.partial = ["'bit-identical' is not expressible over ordered fields: the theorems are exact-arithmetic symmetries of the translated stage code, norms and guards; bitwise identity of whole runs is decided per input by sym-check (paired real runs: reflection with and without events, 2^k scaling, scalar/vector tolerances, 2..16 copies)",
+                 "whole-run reflection (induction over the loop with a reflected oracle), hinit under the symmetries, Radau and BDF stepping are not theorems",
+                 "implicit methods: step-for-step comparison of copies is not robust (quantised step-size changes); sym-check compares them stepwise anyway and has not alarmed; open finding c13-copies-autostep (hinit's unnormalised sums)"]
+
+
+# ---------------------------------------------------------------------------------------------- C01 (accuracy)
+C01_THEOREMS = ["c01_errnorm_spec_dopri5", "c01_errnorm_spec_rk23", "c01_errnorm_spec_radau", "c01_radau_tolerances", "c01_accept_iff",
+                "c01_tol_monotone_dopri5", "c01_tol_monotone_rk23", "c01_controller_bounds", "sqrtLaws_real", "errSum_anti", "accepted_componentwise"]
+
+
+def c01(c):
+    common_proof(c, "IvpModel.Props.C01", C01_THEOREMS)
+    if c.build_harness() and c.build_driver():
+        solve_stream(c)
+        generic_monitor(c, "accuracy_check", ["accuracy-check", c.seed, 300 if c.tier == "quick" else 6000], "ac")
+    only_keys(c, ("c01",))
+    c.cov["samples"] += [
+        {"theorem": "c01_accept_iff", "statement": "SqrtLaws K → 0 < n → (sqrt(errSum e sk / n) ≤ 1 ↔ errSum e sk ≤ n) ∧ (accepted → ∀ i, (e_i/sk_i)² ≤ n)"},
+        {"theorem": "c01_tol_monotone_dopri5", "statement": "atol ≤ atol' → rtol ≤ rtol' → sk > 0 → errnorm atol rtol … ≤ 1 → errnorm atol' rtol' … ≤ 1"},
+    ]
+    c.partial = ["global accuracy (error ≤ C·N·(atol + rtol|y|)), proportionality to the tolerance and RK4's global order are decided per input by accuracy-check against closed-form solutions (C = 10), not by theorems; BDF and DOP853's two-estimator norm have no theorem",
+                 "the per-step theorems are about the translated regions (error norms of RK23/DOPRI5/Radau, Radau's tolerance transformation and initial scale, the DOPRI5/DOP853 controller); X-solve replays every accept/reject decision bit for bit for the explicit methods",
+                 "open finding c01-radau-pure-absolute (rtol = 0 with Radau)"]
+
+
+# ---------------------------------------------------------------------------------------------- C14 (stiff)
+C14_THEOREMS = ["Radau14.c14_radau_constants", "c14_pade23_E", "c14_pade23_negative_real_axis", "c14_pade23_damps"]
+
+
+def c14(c):
+    common_proof(c, "IvpModel.Props.C14", C14_THEOREMS)
+    if c.build_harness() and c.build_driver():
+        generic_monitor(c, "stiff_check", ["stiff-check", c.seed, 30 if c.tier == "quick" else 600], "st", timeout=3000)
+        generic_monitor(c, "interval_check", ["interval-check", c.seed, 120 if c.tier == "quick" else 2000], "iv")
+    only_keys(c, ("c14", "c04-hang"))
+    c.cov["samples"] += [
+        {"theorem": "Radau14.c14_radau_constants", "statement": "constantsCheck = true  (‖A(s)·T·Λ·TI − I‖ ≤ 1e-13, ‖TI·T − I‖ ≤ 1e-14, nodes, DD, characteristic polynomials = Padé(2,3) to 1e-15; exact rationals of the binary64 literals of radau.rs)"},
+        {"theorem": "c14_pade23_damps", "statement": "0 ≤ x → P(−x)²·(1 + x/10) ≤ Q(−x)²"},
+    ]
+    c.partial = ["the Newton iteration, Jacobian/LU reuse logic and step-size controllers of Radau and BDF are not modelled: Success, accuracy and stiffness-independent step counts are decided per input by stiff-check on the real solvers",
+                 "A-stability is proved up to the classical steps not formalised (Hurwitz denominator, maximum principle): the E-polynomial identity and the bound on the negative real axis are theorems",
+                 "BDF: no theorem (coefficients are computed at run time, not constants)"]
